@@ -134,6 +134,9 @@ func (ex *Exec) assignConv(st *State, v *Val, t types.Type, pos token.Pos) *Val 
 				return &Val{Sh: tsh, T: t, S: v.S, Fn: v.Fn}
 			}
 		}
+		if bv := ex.boxScalar(v); bv != "" {
+			return &Val{Sh: tsh, T: t, S: bv}
+		}
 		r := ex.freshVal(t, "boxed")
 		st.assume("(< 0 " + r.S + ")")
 		return r
@@ -147,6 +150,37 @@ func (ex *Exec) assignConv(st *State, v *Val, t types.Type, pos token.Pos) *Val 
 		return ex.retype(v, t)
 	}
 	return v
+}
+
+// boxScalar: the interface value holding a scalar (string/int/bool/float) of a
+// given dynamic type is an injective function of the scalar: box_T(x), with
+// unbox_T(box_T(x)) = x, box_T(x) > 0 and is_T(box_T(x)).
+func (ex *Exec) boxScalar(v *Val) string {
+	if v == nil || v.T == nil || v.Sh == nil || !v.Sh.IsLeaf() || v.Sh.Kind == "lift" || isRefType(v.T) {
+		return ""
+	}
+	srt := v.Sh.Leaf
+	if srt != "String" && srt != "Int" && srt != "Bool" && srt != "Real" {
+		return ""
+	}
+	id := typeID(v.T)
+	box, unbox, is := ex.eng.boxFns(id, srt)
+	_ = unbox
+	_ = is
+	return "(" + box + " " + v.S + ")"
+}
+
+func (eng *Engine) boxFns(id int, srt string) (box, unbox, is string) {
+	box, unbox, is = fmt.Sprintf("box_%d", id), fmt.Sprintf("unbox_%d", id), fmt.Sprintf("is_%d", id)
+	eng.smt.declFun(box, "(declare-fun "+box+" ("+srt+") Int)")
+	eng.smt.declFun(unbox, "(declare-fun "+unbox+" (Int) "+srt+")")
+	eng.smt.declFun(is, "(declare-fun "+is+" (Int) Bool)")
+	ax := "(forall ((x " + srt + ")) (! (and (= (" + unbox + " (" + box + " x)) x) (> (" + box + " x) 0) (" + is + " (" + box + " x))) :pattern ((" + box + " x))))"
+	eng.smt.addFunAx(box, ax)
+	// the functions are mutually dependent: make sure declarations travel together
+	eng.smt.addFunAx(unbox, "(forall ((r Int)) (! (=> ("+is+" r) (= ("+box+" ("+unbox+" r)) r)) :pattern (("+unbox+" r))))")
+	eng.smt.addFunAx(is, "true")
+	return
 }
 
 func (ex *Exec) assign(st *State, lhs ast.Expr, v *Val) {
